@@ -29,26 +29,13 @@ structure DState where
 
 def init : DState := { st := Tally.HistPass.init 0, steps := 0 }
 
-/-- thread `t`, scheduled alone, runs on until it stands in front of its next reporter call (`some b`: it has just
-swapped the non-zero cell of bucket `b`) or has walked all buckets (`none`): it first makes the reporter call it
-was parked in front of, then visits the buckets in order from `pos` (`histogram.report`: `for i := range h.buckets`) -/
-def walk (t : Nat) : Nat → State → Nat → List Ev → Option (State × List Ev × Nat × Option Nat)
-  | 0, _, _, _ => none
-  | fuel + 1, s, b, acc =>
-    if b < s.cells.length then
-      let c := s.cells.getD b 0
-      match step s (.swap t b) with
-      | none => none
-      | some s' => if c = 0 then walk t fuel s' (b + 1) (acc ++ [.swap t b]) else some (s', acc ++ [.swap t b], b + 1, some b)
-    else some (s, acc, b, none)
-
 def advance (d : DState) (t : Nat) : Option (DState × Option Nat) :=
   let s0 := match d.st.pending.lookup t with
     | some _ => step d.st (.deliver t)
     | none => some d.st
   match s0, d.pos.lookup t with
   | some s0, some b =>
-    match walk t (s0.cells.length + 2) s0 b [] with
+    match HistPass.walk t (s0.cells.length + 2) s0 b [] with
     | some (s', evs, b', wh) =>
       some ({ st := s', steps := d.steps + evs.length + 1, pos := (t, b') :: d.pos.filter (·.1 != t) }, wh)
     | none => none
